@@ -175,8 +175,7 @@ def expand_fragments(wsdir, htxt):
             wa = [t.text for t in _code_toks(a)]
             hits = _find_seq(ft, list(range(len(ft))), wa)
             if not hits:
-                problems.append('%s: fragment %s: //@subst %s not found' % (item, name, a))
-                continue
+                continue   # nothing to substitute (if the text still needs the receiver it will not compile: undecided)
             # replace right-to-left so offsets stay valid
             for p0 in reversed(hits):
                 s0 = ft[p0].pos
